@@ -74,6 +74,23 @@ impl PoolableConnection<()> for KConn {
 
 type Inner = PoolInner<KConn, ()>;
 type Rx = Receiver<Pooled<KConn, ()>>;
+type Tx = tokio::sync::oneshot::Sender<Pooled<KConn, ()>>;
+
+/// The element type of `PoolInner.waiting` differs between source revisions (a bare sender, or a
+/// sender tagged "follows somebody else's attempt"); the harness builds whichever the tree uses.
+trait QueuedWaiter {
+    fn of(tx: Tx) -> Self;
+}
+impl QueuedWaiter for Tx {
+    fn of(tx: Tx) -> Self {
+        tx
+    }
+}
+impl QueuedWaiter for (Tx, bool) {
+    fn of(tx: Tx) -> Self {
+        (tx, false)
+    }
+}
 
 /// A pool whose tables already have room (a state every pool is in after its first few
 /// requests): keeps hashbrown's grow/rehash machinery - by far the most expensive code for CBMC,
@@ -93,7 +110,7 @@ fn cfg(max_idle: usize) -> Config {
 /// Add a waiter for `t`; `live` decides whether its receiver is still interested.
 fn add_waiter(inner: &mut Inner, t: Token, live: bool) -> Option<Rx> {
     let (tx, mut rx) = tokio::sync::oneshot::channel();
-    inner.waiting.entry(t).or_default().push_back(tx);
+    inner.waiting.entry(t).or_default().push_back(QueuedWaiter::of(tx));
     if live {
         Some(rx)
     } else {
@@ -151,11 +168,11 @@ pub fn push_step(nw: usize, ni: usize, share: bool, max_idle: usize, check_bound
     if nw > 0 {
         let mut q = VecDeque::new();
         let (tx, mut rx) = tokio::sync::oneshot::channel();
-        q.push_back(tx);
+        q.push_back(QueuedWaiter::of(tx));
         if live0 { rx0 = Some(rx); } else { rx.close(); std::mem::forget(rx); }
         if nw > 1 {
             let (tx, mut rx) = tokio::sync::oneshot::channel();
-            q.push_back(tx);
+            q.push_back(QueuedWaiter::of(tx));
             if live1 { rx1 = Some(rx); } else { rx.close(); std::mem::forget(rx); }
         }
         inner.waiting.insert(a, q);
@@ -167,7 +184,7 @@ pub fn push_step(nw: usize, ni: usize, share: bool, max_idle: usize, check_bound
         inner.idle.insert(b, lb);
         let mut q = VecDeque::new();
         let (tx, rx) = tokio::sync::oneshot::channel();
-        q.push_back(tx);
+        q.push_back(QueuedWaiter::of(tx));
         rxb = Some(rx);
         inner.waiting.insert(b, q);
     }
